@@ -31,6 +31,31 @@ M = 'linalg::array::matrix::Matrix'
 V = 'linalg::array::vec::Vector'
 
 
+class _PCall:
+    """a call made inside a closure, seen from the function that creates the closure: located at the block that creates / passes the
+    closure (so it inherits that block's guards), with captured variables replaced by the captured terms"""
+    def __init__(self, path, bb, args, span):
+        self.path, self.bb, self.args, self.span = path, bb, args, span
+
+
+def _calls_with_closures(prog, f):
+    from ..structs import subst
+    out = list(f.calls())
+    seen = set()
+    for c in f.calls():
+        for a_ in c.args:
+            for z in subterms(a_):
+                if tag(z) == 'agg' and z[1] == 'closure' and (z[2], c.bb) not in seen:
+                    seen.add((z[2], c.bb))
+                    g = prog.func(z[2])
+                    if g is None:
+                        continue
+                    for gc in g.calls():
+                        ups = {u: z[3][u[1]] for x in gc.args for u in subterms(x) if tag(u) == 'upvar' and u[1] < len(z[3])}
+                        out.append(_PCall(gc.path, c.bb, tuple(subst(x, ups) for x in gc.args), c.span))
+    return out
+
+
 def run(prog, rep, tier, repo):
     pdb = prog.pdb
     for name in ('solve', 'solve_sys'):
@@ -41,7 +66,7 @@ def run(prog, rep, tier, repo):
             continue
         rep.touch(k)
         a = ('arg', 1, f.names.get(1))
-        calls = f.calls()
+        calls = _calls_with_closures(prog, f)
         fact = [c for c in calls if c.path in (D + 'cholesky::cholesky', D + 'cholesky::try_cholesky')]
         csolve = [c for c in calls if c.path == D + 'cholesky::cholesky_solve']
         lus = [c for c in calls if c.path == D + 'lu::lu']
